@@ -409,3 +409,44 @@ Print Assumptions C19_rs_fuzz_parse_float_eq_bytes.
 Print Assumptions C19_rs_test_parse_float_eq_bytes.
 Print Assumptions C19_rs_simple_parse_float_correct.
 Print Assumptions C19_rs_etc_parse_float_correct.
+
+(** The three further shipped copies of the front-end (etc/correctness/rng-tests/_common.rs, test-parse-random/_common.rs, test-parse-unittests/main.rs) are regenerated too (coq/gen/SrcFrontRng.v, SrcFrontRand.v, SrcFrontUnit.v); their generated parser functions coincide with those of examples/simple.rs and equal the model for arbitrary byte strings. *)
+From ML Require Import gen.SrcFrontRng gen.SrcFrontRand gen.SrcFrontUnit proofs.SrcEqFront3.
+
+Theorem C19_rs_rng_parse_float_eq_bytes :
+  forall (c : config) (f : format) (b : build) (s : list Z),
+         f = F32 \/ f = F64 ->
+         zlen s < 2 ^ 63 ->
+         rs_rng_parse_float c TABLES BTABLES LIMITS f b s = fe_simple c TABLES BTABLES LIMITS f b s.
+Proof. exact rs_rng_parse_float_eq_bytes. Qed.
+
+Theorem C19_rs_rand_parse_float_eq_bytes :
+  forall (c : config) (f : format) (b : build) (s : list Z),
+         f = F32 \/ f = F64 ->
+         zlen s < 2 ^ 63 ->
+         rs_rand_parse_float c TABLES BTABLES LIMITS f b s = fe_simple c TABLES BTABLES LIMITS f b s.
+Proof. exact rs_rand_parse_float_eq_bytes. Qed.
+
+Theorem C19_rs_unit_parse_float_eq_bytes :
+  forall (c : config) (f : format) (b : build) (s : list Z),
+         f = F32 \/ f = F64 ->
+         zlen s < 2 ^ 63 ->
+         rs_unit_parse_float c TABLES BTABLES LIMITS f b s = fe_simple c TABLES BTABLES LIMITS f b s.
+Proof. exact rs_unit_parse_float_eq_bytes. Qed.
+
+Theorem C19_rs_rand_parse_float_correct :
+  forall (c : config) (f : format) (b : build) (s : list Z),
+         In c ALL_CONFIGS ->
+         f = F32 \/ f = F64 ->
+         zlen s <= 2 ^ 28 ->
+         let x := lex s in
+         rs_rand_parse_float c TABLES BTABLES LIMITS f b s =
+         Ok
+           (let v := Round.RN f (dec_value (lx_int x) (lx_frac x) (lx_exp x)) in
+            if lx_pos x then v else f_neg f v, lx_rest x).
+Proof. exact rs_rand_parse_float_correct. Qed.
+
+Print Assumptions C19_rs_rng_parse_float_eq_bytes.
+Print Assumptions C19_rs_rand_parse_float_eq_bytes.
+Print Assumptions C19_rs_unit_parse_float_eq_bytes.
+Print Assumptions C19_rs_rand_parse_float_correct.
